@@ -177,7 +177,7 @@ Definition idx_ok {A} (heap : list A) (P : A -> Prop) (i : nat) : Prop :=
 Definition seg_printable (h : errh) (n : seg_node) : Prop :=
   sn_seg_id n <> None /\ sn_seg_count n <> None /\ Forall (idx_ok (h_ele h) (fun _ => True)) (sn_elements n).
 Definition st_printable (h : errh) (t : st_node) : Prop :=
-  tn_id t <> None /\ tn_ctl t <> None /\ tn_ack t <> None /\ Forall (idx_ok (h_seg h) (seg_printable h)) (tn_children t).
+  tn_id t <> None /\ tn_ack t <> None /\ Forall (idx_ok (h_seg h) (seg_printable h)) (tn_children t).
 Definition gs_printable (h : errh) (g : gs_node) : Prop :=
   Forall (idx_ok (h_st h) (st_printable h)) (gn_children g).
 (* no dangling index below an ISA node, and every attribute the 997 prints without a default is there: then
